@@ -15,6 +15,7 @@ pub fn avoid_all() -> Avoid {
         unsub_shape: true,
         empty_nonretained: true,
         unsub_in_group: true,
+        group_stall: true,
     }
 }
 
